@@ -31,6 +31,9 @@ var addrPool = []AddrW{
 	{CIDR: "fd00:1::3/64", Flags: unix.IFA_F_TEMPORARY | unix.IFA_F_STABLE_PRIVACY},
 	{CIDR: "2001:db8:0:1::1/64", Flags: unix.IFA_F_STABLE_PRIVACY},
 	{CIDR: "::1/128", Forever: true},
+	// networks whose order as text differs from their order as addresses
+	{CIDR: "2001:db8:0:10::1/64"},
+	{CIDR: "2001:db8::7/64", Forever: true}, // subnet zero
 }
 
 // Route pool for C15: nested prefixes sharing and not sharing a base address,
